@@ -3114,7 +3114,7 @@ def first_use_concurrency_checks(ctx, docs, base):
     jobs = []
     for fmt, ds in sorted(byfmt.items()):
         ds = ds[:3]
-        for slow in (True, False):
+        for slow in ((True,) if ctx.tier == "quick" else (True, False)):
             jobs.append((fmt, slow, {"docs": ds, "threads": ctx.n(4, 8), "slow_thread0": slow}))
 
     def one(j):
